@@ -19,7 +19,7 @@ HEADER = [
 ]
 
 
-ROUTINGS = ("constvar", "after", "untaken", "taken", "loop2", "loop0", "fn_called", "fn_uncalled")
+ROUTINGS = ("constvar", "after", "untaken", "taken", "loop2", "loop0", "fn_called", "fn_uncalled", "loopjump")
 
 
 class Script:
@@ -86,6 +86,8 @@ class Script:
             L += [f"def set{self.nvar}():", f"    global {name}", f"    {name} = {v!r}", f"{name} = {other!r}", f"set{self.nvar}()"]
         elif r == "fn_uncalled":
             L += [f"def set{self.nvar}():", f"    global {name}", f"    {name} = {other!r}", f"{name} = {v!r}"]
+        elif r == "loopjump":       # a loop with a constant count whose body re-binds the name BELOW a `break` that is taken at once
+            L += [f"{name} = {v!r}", f"for lk{self.nvar} in range(2):", f"    if {self._read(1)} > 0:", "        break", f"    {name} = {other!r}"]
         else:
             raise ValueError(r)
         return name
@@ -119,6 +121,8 @@ class Script:
             L += [f"def set{self.nvar}():", f"    global {name}", f"    {name} = {b!r}", f"{name} = {(not b)!r}", f"set{self.nvar}()"]
         elif r == "fn_uncalled":
             L += [f"def set{self.nvar}():", f"    global {name}", f"    {name} = {(not b)!r}", f"{name} = {b!r}"]
+        elif r == "loopjump":
+            L += [f"{name} = {b!r}", f"for lk{self.nvar} in range(2):", f"    if {self._read(1)} > 0:", "        continue", f"    {name} = {(not b)!r}"]
         else:
             raise ValueError(r)
         return name
